@@ -342,7 +342,7 @@ _sensitive_check_disabled = False
 PERTURB = 1e-12
 
 
-def _perturbed(values, seed):
+def _perturbed(values, seed, level=None):
     """Relative perturbation of every float input at the 1e-12 level.  Equal values receive the *same* perturbation
     (the factor is a function of the value), so coincidences between inputs -- a grid point equal to sigma, two equal
     diameters -- survive: a `>` vs `>=` slip is a discontinuity, not ill-conditioning."""
@@ -353,7 +353,7 @@ def _perturbed(values, seed):
         if v == 0.0 or v != v or v in (float('inf'), float('-inf')):
             return v
         rng = random.Random(zlib.crc32(repr(float(v)).encode()) ^ (seed * 7919 + 13))
-        return v * (1.0 + PERTURB * rng.uniform(-1, 1))
+        return v * (1.0 + (PERTURB if level is None else level) * rng.uniform(-1, 1))
     out = {}
     for k, v in values.items():
         if isinstance(v, bool) or isinstance(v, int):
@@ -371,32 +371,37 @@ def _perturbed(values, seed):
 
 
 def _filter_by_sensitivity(contract, build, used, seed, real, names, ra, rb, ignore, diffs, post_body):
-    """Numerical disagreements count only when they exceed what a 1e-12 relative perturbation of the inputs does to
+    """Numerical disagreements count only when they exceed what a 1e-12 .. 1e-9 relative perturbation of the inputs does to
     the result of the contract and of the code themselves (ill-conditioned pre-states -- a nearly singular I - Omega C,
     cancellation -- amplify rounding in *both*; two algebraically equal evaluation orders then differ far above 1e-9)."""
     global NOISE, COLLECT
     try:
-        pv = _perturbed(dict((k, (v.tolist() if isinstance(v, np.ndarray) else v)) for k, v in used.items()), seed)
-        fa2, fb2 = ConcFactory(pv, seed), ConcFactory(pv, seed)
-        with warnings.catch_warnings():
-            warnings.simplefilter('ignore')
-            with np.errstate(all='ignore'):
-                a2, b2 = build(fa2), build(fb2)
-        oa2 = run_native(real, a2)
-        ob2 = run_native(contract.spec, b2)
-        if oa2[0] != 'return' or ob2[0] != 'return':
-            return diffs
-        ra2 = Snap().take([oa2[1]] + [a2[k] for k in sorted(a2)])
-        rb2 = Snap().take([ob2[1]] + [b2[k] for k in sorted(b2)])
-        COLLECT = {}
-        reset_pairing()
-        for nm, x, y in zip(names, ra[2], ra2[2]):
-            diff(x, y, nm, [], limit=10 ** 9, ignore=ignore)
-        reset_pairing()
-        for nm, x, y in zip(names, rb[2], rb2[2]):
-            diff(x, y, nm, [], limit=10 ** 9, ignore=ignore)
-        noise = COLLECT
-        COLLECT = None
+        noise = {}
+        # three perturbation levels: a perturbation below the resolution of an intermediate (1 - E with E = 1 - 1e-6)
+        # leaves a catastrophic cancellation invisible at 1e-12; the noise per component is the largest one seen
+        for li, level in enumerate((PERTURB, 1e-10, 1e-9)):
+            pv = _perturbed(dict((k, (v.tolist() if isinstance(v, np.ndarray) else v)) for k, v in used.items()), seed + li, level)
+            fa2, fb2 = ConcFactory(pv, seed), ConcFactory(pv, seed)
+            with warnings.catch_warnings():
+                warnings.simplefilter('ignore')
+                with np.errstate(all='ignore'):
+                    a2, b2 = build(fa2), build(fb2)
+            oa2 = run_native(real, a2)
+            ob2 = run_native(contract.spec, b2)
+            if oa2[0] != 'return' or ob2[0] != 'return':
+                if li == 0:
+                    return diffs
+                continue
+            ra2 = Snap().take([oa2[1]] + [a2[k] for k in sorted(a2)])
+            rb2 = Snap().take([ob2[1]] + [b2[k] for k in sorted(b2)])
+            COLLECT = noise
+            reset_pairing()
+            for nm, x, y in zip(names, ra[2], ra2[2]):
+                diff(x, y, nm, [], limit=10 ** 9, ignore=ignore)
+            reset_pairing()
+            for nm, x, y in zip(names, rb[2], rb2[2]):
+                diff(x, y, nm, [], limit=10 ** 9, ignore=ignore)
+            COLLECT = None
         # ill-conditioned pre-state (amplification of a 1e-12 perturbation beyond 1e5, or non-finite noise):
         # rounding dominates both sides; such a sample can neither confirm nor refute anything
         scale = {}
